@@ -110,7 +110,7 @@ pub fn run(path: &str, workdir: &str) {
             let inb = node.inboxes();
             let q = node.queues();
             out.line(&format!("{} | {} | {}", res, inb, q));
-            out.line(&format!("D {} {}", node.dump(true), files_digest(&dir)));
+            out.line(&format!("D {} {}", safe_dump(&node, true), files_digest(&dir)));
             if let Some(a) = aux {
                 out.line(&a);
             }
